@@ -49,3 +49,19 @@ Definition verdict_mt (c : N * list N * list N * list (list op * list obs)) : N 
   let file := file_of zs ts in
   (if 2 <=? N.of_nat (length (filter (fun t => negb (Nat.eqb (length (fst t)) 0)) threads)) then 10 else 0) +
   (if forallb (fun t => all_match (fst t) (map (spec c_max_len_incl_delim file flen) (fst t)) (snd t)) threads then 0 else 2).
+
+(* histories with injected source failures: evs = (a failure of the next source read is armed before the call, call); observed = (outcome, the
+   source failed during this call).  Property: a call during which the source did not fail answers as specified; one during which it failed
+   answers Err (or, if it did not need the failed read, as specified) - never a panic, never other bytes.  Conformance: the same calls meet the
+   failures as in the model (Model/ChunkCache.v run_f) and answer the same.  +10: some call met a failure *)
+Fixpoint all2 {A B} (f : A -> B -> bool) (l1 : list A) (l2 : list B) : bool :=
+  match l1, l2 with [], [] => true | a :: r1, b :: r2 => f a b && all2 f r1 r2 | _, _ => false end.
+Definition verdict_f (c : N * list N * list N * list (bool * op) * list (obs * bool)) : N :=
+  let '(flen, zs, ts, evs, obsl) := c in
+  let file := file_of zs ts in
+  let sp o := spec c_max_len_incl_delim file flen o in
+  let model := run_f c_chunk_size c_max_len_incl_delim file flen init false evs in
+  let prop := all2 (fun (ev : bool * op) (ob : obs * bool) => if snd ob then (match fst ob with OE => true | _ => matches (snd ev) (sp (snd ev)) (fst ob) end)
+                                 else matches (snd ev) (sp (snd ev)) (fst ob)) evs obsl in
+  let conf := all2 (fun (evm : (bool * op) * (outcome * bool)) (ob : obs * bool) => Bool.eqb (snd (snd evm)) (snd ob) && matches (snd (fst evm)) (fst (snd evm)) (fst ob)) (combine evs model) obsl in
+  (if existsb (fun ob : obs * bool => snd ob) obsl then 10 else 0) + (if negb prop then 2 else if conf then 0 else 1).
